@@ -114,6 +114,10 @@ def check(ctx):
         body = prog.async_body(fn)
         posts = body.calls_to("acmed::http::post_jose", "acmed::http::post")
         ctx.floor(R3, "POST creation sites in %s" % fn, len(posts), 1)
+        in_loop = [c for c in posts if body.scc_of(c.bb) is not None]
+        ctx.require(R3, len(posts) == 1 and len(in_loop) == 1, posts[-1].where() if posts else "-",
+                    "%s polls only inside its bounded loop: one POST site, in the loop (found %d site(s), %d in a loop) — a poll after the loop is a 21st request"
+                    % (fn.rsplit("::", 1)[1], len(posts), len(in_loop)), [fn, "poll-sites"])
         bounded_loop_rule(ctx, R3, body, [c.bb for c in posts], "the polling POST of %s" % fn.rsplit("::", 1)[1], 20,
                           "acmed::DEFAULT_POOL_NB_TRIES", fn)
     # no other loop in the workspace re-issues requests: callers of http::post* that sit in a loop
